@@ -2425,89 +2425,193 @@ def _is_localcontext_call(c):
                                         or (isinstance(c.func, ast.Attribute) and c.func.attr == 'localcontext'))
 
 
-def decorator_definition_kind(fn):
-    """what a decorator *factory* defined in the analysed packages does with the function it decorates, read from its
-    definition on every run:
-      'context'  - some inner wrapper runs the call to the decorated function inside
-                   `with localcontext() as ctx: ctx.prec = <value taken from the factory's arguments>`
-      'wrapper'  - an inner function calls the decorated function; nothing in the factory keeps state; NO context
-      'identity' - the inner decorator hands the function back unchanged (no wrapper, no state)
-      None       - anything else (unknown: the caller fails closed)"""
+def _ambient_context_write(n, aliases=()):
+    """statement that rewrites the calling thread's decimal context: `getcontext().x = ..`, `<alias of getcontext()>.x = ..`,
+    `setcontext(..)` -> description, else None"""
+    if isinstance(n, (ast.Assign, ast.AugAssign)):
+        for t in (n.targets if isinstance(n, ast.Assign) else [n.target]):
+            if isinstance(t, ast.Attribute):
+                if DecimalAnalysis.is_getcontext(t.value):
+                    return 'getcontext().%s = %s' % (t.attr, ast.unparse(n.value))
+                if isinstance(t.value, ast.Name) and t.value.id in aliases:
+                    return 'getcontext().%s = %s' % (t.attr, ast.unparse(n.value))
+    elif isinstance(n, ast.Expr) and isinstance(n.value, ast.Call):
+        f = n.value.func
+        if (isinstance(f, ast.Name) and f.id == 'setcontext') or (isinstance(f, ast.Attribute) and f.attr == 'setcontext'):
+            return 'setcontext(..)'
+    return None
+
+
+def _context_aliases(fn):
+    """local names bound to the thread context object: `ctx = getcontext()`"""
+    out = set()
+    for n in ast.walk(fn):
+        if isinstance(n, ast.Assign) and DecimalAnalysis.is_getcontext(n.value):
+            for t in n.targets:
+                if isinstance(t, ast.Name):
+                    out.add(t.id)
+    return out
+
+
+def _own_nodes(fn):
+    """nodes of fn's body that are not inside a nested function / lambda"""
+    todo = list(fn.body)
+    while todo:
+        n = todo.pop()
+        yield n
+        for ch in ast.iter_child_nodes(n):
+            if not isinstance(ch, (ast.FunctionDef, ast.AsyncFunctionDef, ast.Lambda)):
+                todo.append(ch)
+
+
+def analyse_decorator(fn):
+    """read the definition of a decorator / decorator factory defined in the analysed packages (on every run).
+    -> (kind, scoped statement ids, description)
+      'context'     - 'scoping': the wrapper it returns establishes the decimal context around each call and calls the
+                      wrapped function inside it:  with localcontext() as c: c.prec = <factory argument>; .. f(..)
+                                                   with localcontext(<explicit context>) / localcontext(prec=..): .. f(..)
+                                                   old = getcontext().prec; getcontext().prec = <arg>; try: .. f(..)
+                                                   finally: getcontext().prec = old
+      'import-time' - the factory / decorator body (outside any returned wrapper) rewrites ambient state: it runs once, when
+                      the decorator is applied, on the importing thread only
+      'wrapper'     - a wrapper calls the function; nothing keeps state; no context is established
+      'identity'    - the function is handed back unchanged
+      None          - any other shape: the caller fails closed"""
     outer_params = {a.arg for a in fn.args.posonlyargs + fn.args.args + fn.args.kwonlyargs}
     for x in (fn.args.vararg, fn.args.kwarg):
         if x is not None:
             outer_params.add(x.arg)
-    inner = [n for n in ast.walk(fn) if isinstance(n, (ast.FunctionDef, ast.Lambda)) and n is not fn]
+    nested = [n for n in ast.walk(fn) if isinstance(n, (ast.FunctionDef, ast.AsyncFunctionDef)) and n is not fn]
     fparams = set()
-    for n in inner:
+    for n in [fn] + nested:
         for a in n.args.posonlyargs + n.args.args:
             fparams.add(a.arg)
-    for w in ast.walk(fn):
-        if not isinstance(w, ast.With):
-            continue
-        for it in w.items:
-            if not (_is_localcontext_call(it.context_expr) and isinstance(it.optional_vars, ast.Name)):
-                continue
-            v = it.optional_vars.id
-            prec_at = None
-            for i, st in enumerate(w.body):
-                if isinstance(st, ast.Assign) and any(isinstance(t, ast.Attribute) and t.attr == 'prec'
-                                                      and isinstance(t.value, ast.Name) and t.value.id == v
-                                                      for t in st.targets) \
-                        and any(isinstance(x, ast.Name) and x.id in outer_params for x in ast.walk(st.value)):
-                    prec_at = i
-                    break
-                break       # the precision must be the first thing set in the block
-            if prec_at is None:
-                continue
-            for st in w.body[prec_at + 1:]:
-                for x in ast.walk(st):
-                    if isinstance(x, ast.Call) and isinstance(x.func, ast.Name) and x.func.id in fparams:
-                        return 'context'
-    # stateless wrapper: an inner function calls the decorated function, and nothing in the factory keeps state
-    calls_f = any(isinstance(x, ast.Call) and isinstance(x.func, ast.Name) and x.func.id in fparams for x in ast.walk(fn))
-    if calls_f:
+
+    def calls_wrapped(node):
+        return any(isinstance(x, ast.Call) and isinstance(x.func, ast.Name) and x.func.id in fparams
+                   for x in ast.walk(node))
+    # wrappers: the (innermost) nested functions whose own body contains the call of the wrapped function
+    wrappers = [w for w in nested if any(
+        isinstance(x, ast.Call) and isinstance(x.func, ast.Name) and x.func.id in fparams for x in _own_nodes(w))]
+    # ---- ambient writes outside every wrapper: executed when the decorator is applied
+    for holder in [fn] + [n for n in nested if n not in wrappers]:
+        aliases = _context_aliases(holder)
+        for x in _own_nodes(holder):
+            if isinstance(x, ast.Global):
+                return 'import-time', set(), 'rebinds module globals %s when the decorator is applied' % ', '.join(x.names)
+            w = _ambient_context_write(x, aliases)
+            if w:
+                return 'import-time', set(), '`%s` runs once, when the decorator is applied (line %d)' % (w, x.lineno)
+    # ---- anything that keeps state between calls (closure memo, nonlocal counters) is an unknown shape
+    def stateful():
         with_vars = {it.optional_vars.id for w in ast.walk(fn) if isinstance(w, ast.With) for it in w.items
                      if isinstance(it.optional_vars, ast.Name)}
-        stateless = True
+        aliases = set()
+        for w in wrappers:
+            aliases |= _context_aliases(w)
         for x in ast.walk(fn):
             if isinstance(x, (ast.Nonlocal, ast.Global)):
-                stateless = False
-            elif isinstance(x, (ast.Assign, ast.AugAssign, ast.Delete)):
+                return True
+            if isinstance(x, (ast.Assign, ast.AugAssign, ast.Delete)):
                 for t in (x.targets if not isinstance(x, ast.AugAssign) else [x.target]):
                     if isinstance(t, (ast.Attribute, ast.Subscript)):
-                        b = t
-                        while isinstance(b, (ast.Attribute, ast.Subscript)):
-                            b = b.value
-                        if DecimalAnalysis.is_getcontext(b):
-                            continue        # a thread-context write: reported by C02.decimal-context
-                        if not (isinstance(b, ast.Name) and b.id in with_vars):
-                            stateless = False
+                        base = t
+                        while isinstance(base, (ast.Attribute, ast.Subscript)):
+                            base = base.value
+                        if DecimalAnalysis.is_getcontext(base) or (isinstance(base, ast.Name) and base.id in aliases):
+                            continue        # a thread-context write: scoped (verified below) or reported by the rule
+                        if not (isinstance(base, ast.Name) and base.id in with_vars):
+                            return True
             elif isinstance(x, ast.Call) and isinstance(x.func, ast.Attribute) and x.func.attr in MUTATORS \
                     and isinstance(x.func.value, ast.Name):
-                stateless = False
-        if stateless:
-            return 'wrapper'
-    # identity: def factory(..): def decorator(f): return f ; return decorator
-    for n in inner:
-        if isinstance(n, ast.FunctionDef) and len(n.args.args) == 1:
-            body = [st for st in n.body if not (isinstance(st, ast.Expr) and isinstance(st.value, ast.Constant))]
-            if len(body) == 1 and isinstance(body[0], ast.Return) and isinstance(body[0].value, ast.Name) \
-                    and body[0].value.id == n.args.args[0].arg \
-                    and any(isinstance(r, ast.Return) and isinstance(r.value, ast.Name) and r.value.id == n.name
-                            for r in fn.body):
-                return 'identity'
-    body = [st for st in fn.body if not (isinstance(st, ast.Expr) and isinstance(st.value, ast.Constant))]
-    if len(fn.args.args) == 1 and len(body) == 1 and isinstance(body[0], ast.Return) \
-            and isinstance(body[0].value, ast.Name) and body[0].value.id == fn.args.args[0].arg:
-        return 'identity'
-    return None
+                return True
+        return False
+    if wrappers and stateful():
+        return None, set(), ''
+    # ---- scoping wrappers
+    scoped = set()
+    for w in wrappers:
+        aliases = _context_aliases(w)
+        # (a) / (b) with localcontext(..)
+        for wnode in ast.walk(w):
+            if not isinstance(wnode, ast.With):
+                continue
+            for it in wnode.items:
+                c = it.context_expr
+                if not _is_localcontext_call(c):
+                    continue
+                explicit = (bool(c.args) and not DecimalAnalysis.is_getcontext(c.args[0])) \
+                    or any(k.arg == 'prec' for k in c.keywords)
+                start = 0
+                if not explicit:
+                    if not isinstance(it.optional_vars, ast.Name):
+                        continue
+                    v = it.optional_vars.id
+                    st = wnode.body[0] if wnode.body else None
+                    if not (isinstance(st, ast.Assign) and any(
+                            isinstance(t, ast.Attribute) and t.attr == 'prec' and isinstance(t.value, ast.Name)
+                            and t.value.id == v for t in st.targets)
+                            and any(isinstance(x, ast.Name) and x.id in outer_params for x in ast.walk(st.value))):
+                        continue        # the precision must be the first thing set in the block, from the arguments
+                    start = 1
+                if any(calls_wrapped(st) for st in wnode.body[start:]):
+                    return 'context', scoped, 'with localcontext()'
+        # (c) save / set / try .. finally restore
+        body = list(w.body)
+        for i, st in enumerate(body):
+            if not isinstance(st, ast.Try) or not st.finalbody or not any(calls_wrapped(x) for x in st.body):
+                continue
+            saved = {}      # name -> attribute saved from the context
+            sets = []
+            for pre in body[:i]:
+                if isinstance(pre, ast.Assign) and len(pre.targets) == 1 and isinstance(pre.targets[0], ast.Name) \
+                        and isinstance(pre.value, ast.Attribute) and (
+                            DecimalAnalysis.is_getcontext(pre.value.value)
+                            or (isinstance(pre.value.value, ast.Name) and pre.value.value.id in aliases)):
+                    saved[pre.targets[0].id] = pre.value.attr
+                elif _ambient_context_write(pre, aliases):
+                    sets.append(pre)
+            lead = []
+            for x in st.body:
+                if _ambient_context_write(x, aliases):
+                    lead.append(x)
+                else:
+                    break
+            sets += lead
+            restores = [x for x in st.finalbody if _ambient_context_write(x, aliases)]
+            ok_set = [x for x in sets if isinstance(x, ast.Assign) and x.targets[0].attr == 'prec'
+                      and any(isinstance(y, ast.Name) and y.id in outer_params for y in ast.walk(x.value))]
+            ok_restore = [x for x in restores if isinstance(x, ast.Assign) and isinstance(x.value, ast.Name)
+                          and saved.get(x.value.id) == x.targets[0].attr]
+            if ok_set and ok_restore and {x.targets[0].attr for x in sets if isinstance(x, ast.Assign)} \
+                    <= {x.targets[0].attr for x in ok_restore}:
+                for x in sets + restores:
+                    scoped.add(id(x))
+                return 'context', scoped, 'save / set / try-finally restore'
+    if wrappers:
+        return 'wrapper', set(), 'a plain wrapper around the call'
+    # ---- identity: every non-wrapper function hands its parameter / the inner decorator back, nothing else happens
+    def returns_only(n, names):
+        body = [st for st in n.body if not (isinstance(st, ast.Expr) and isinstance(st.value, ast.Constant))
+                and not isinstance(st, (ast.FunctionDef, ast.Pass))]
+        return len(body) == 1 and isinstance(body[0], ast.Return) and isinstance(body[0].value, ast.Name) \
+            and body[0].value.id in names
+    if not nested and len(fn.args.args) == 1 and returns_only(fn, {fn.args.args[0].arg}):
+        return 'identity', set(), 'hands the function back unchanged'
+    if len(nested) == 1 and len(nested[0].args.args) == 1 and returns_only(nested[0], {nested[0].args.args[0].arg}) \
+            and returns_only(fn, {nested[0].name}):
+        return 'identity', set(), 'hands the function back unchanged'
+    return None, set(), ''
+
+
+def decorator_definition_kind(fn):
+    return analyse_decorator(fn)[0]
 
 
 def context_decorator(A, u):
     """`@precision(prec=N)`: the decorator resolves to a definition in the analysed packages that - checked on every run -
-    runs the decorated call under `with localcontext() as ctx: ctx.prec = <prec argument>` -> description, else None
-    (a decorator of that name whose definition no longer does this gives NO context: what it decorates is uncovered)"""
+    scopes the decimal context around the decorated call (see analyse_decorator) -> description, else None
+    (a decorator whose definition does not do this gives NO context: what it decorates is uncovered)"""
     for d in u.node.decorator_list:
         if not isinstance(d, ast.Call):
             continue
@@ -2557,23 +2661,27 @@ def rule_decimal(chk, A):
         for x in ast.walk(m.tree):
             for ch in ast.iter_child_nodes(x):
                 parents[id(ch)] = x
+        scoped_ids = set()
+        alias_of = {}
+        for f0 in ast.walk(m.tree):
+            if isinstance(f0, (ast.FunctionDef, ast.AsyncFunctionDef)):
+                al = _context_aliases(f0)
+                if al:
+                    alias_of[id(f0)] = al
+                if f0 in m.tree.body:
+                    scoped_ids |= analyse_decorator(f0)[1]
         for n in ast.walk(m.tree):
-            hit = None
-            if isinstance(n, (ast.Assign, ast.AugAssign)):
-                for t in (n.targets if isinstance(n, ast.Assign) else [n.target]):
-                    if isinstance(t, ast.Attribute) and D.is_getcontext(t.value):
-                        hit = 'getcontext().%s = %s' % (t.attr, ast.unparse(n.value))
-            elif isinstance(n, ast.Call) and ((isinstance(n.func, ast.Name) and n.func.id == 'setcontext')
-                                              or (isinstance(n.func, ast.Attribute) and n.func.attr == 'setcontext')):
-                hit = 'setcontext(..)'
+            if not isinstance(n, (ast.Assign, ast.AugAssign, ast.Expr)) or id(n) in scoped_ids:
+                continue
+            q = n
+            fn = None
+            while id(q) in parents:
+                q = parents[id(q)]
+                if isinstance(q, (ast.FunctionDef, ast.AsyncFunctionDef)):
+                    fn = q
+                    break
+            hit = _ambient_context_write(n, alias_of.get(id(fn), ()) if fn is not None else ())
             if hit:
-                q = n
-                fn = None
-                while id(q) in parents:
-                    q = parents[id(q)]
-                    if isinstance(q, (ast.FunctionDef, ast.AsyncFunctionDef)):
-                        fn = q
-                        break
                 writes.append((m, n, hit, fn))
     for m, n, hit, fn in writes:
         if fn is None:
@@ -2596,6 +2704,17 @@ def rule_decimal(chk, A):
             deco[id(u)] = context_decorator(A, u)
             inside[id(u)] = explicit_context_nodes(u) if 'localcontext' in u.mod.src else set()
         return deco[id(u)], inside[id(u)]
+    def dead_note(u):
+        for dd in u.node.decorator_list:
+            dfn = _resolve_decorator(A, u, dd)
+            if dfn is not None and decorator_definition_kind(dfn) != 'context':
+                kind_, _ids, desc_ = analyse_decorator(dfn)
+                if kind_ == 'import-time':
+                    return ' (its decorator @%s does not scope the context around the call: %s - on the importing thread ' \
+                           'only; definition at line %d of its module)' % (dfn.name, desc_, dfn.lineno)
+                return ' (its decorator @%s establishes no decimal context around the call: %s; definition at line %d of ' \
+                       'its module)' % (dfn.name, desc_ or 'unknown shape', dfn.lineno)
+        return ''
     region = {}
     todo = list(need)
     while todo:
@@ -2632,11 +2751,11 @@ def rule_decimal(chk, A):
                     if dk_ or id(c) in ins or k is u:
                         continue
                     if not state.get(id(k), False):
-                        bad = 'it is called from %s (%s:%d) without one' % (k.qual, k.mod.rel, c.lineno)
+                        bad = 'it is called from %s (%s:%d) without one%s' % (k.qual, k.mod.rel, c.lineno, dead_note(k))
                         break
                 if bad:
                     state[i] = False
-                    why[i] = bad[:300]
+                    why[i] = bad[:520]
                     changed = True
         grounded = set()
         changed = True
@@ -2689,12 +2808,7 @@ def rule_decimal(chk, A):
             outer = [(n, detail) for n, detail in uncovered if id(n) not in inner]
             forms = sorted({detail for n, detail in outer})
             lines = sorted({n.lineno for n, detail in outer})
-            dead = ''
-            for dd in u.node.decorator_list:
-                dfn = _resolve_decorator(A, u, dd)
-                if dfn is not None and decorator_definition_kind(dfn) != 'context':
-                    dead = ' (its decorator @%s no longer runs the call under `with localcontext() as ctx: ctx.prec = ..`: ' \
-                           'see the definition at line %d of its module)' % (dfn.name, dfn.lineno)
+            dead = dead_note(u)
             chk.bad(R_DEC, u.path, u.qual, '; '.join(forms),
                     '%d Decimal operation(s) in %s (lines %s) run under whatever decimal context the calling thread has - no '
                     'working @precision / `with localcontext()` here%s, and %s: the digits of the result depend on the thread '
@@ -2962,13 +3076,19 @@ def rule_decorators(chk, A):
         elif u is not None and context_decorator(A, u):
             chk.ok(R_DECO, path, '@' + key, 'runs the function under an explicit decimal context', raw.lineno)
         elif u is not None and _resolve_decorator(A, u, raw) is not None \
-                and decorator_definition_kind(_resolve_decorator(A, u, raw)) in ('identity', 'wrapper'):
-            chk.ok(R_DECO, path, '@' + key, 'defined in the analysed packages: %s, keeps no state and gives no decimal context '
-                   '(see %s)' % ('hands the function back unchanged' if decorator_definition_kind(
-                       _resolve_decorator(A, u, raw)) == 'identity' else 'a plain wrapper around the call', R_DEC), raw.lineno)
+                and decorator_definition_kind(_resolve_decorator(A, u, raw)) in ('identity', 'wrapper', 'import-time'):
+            kind_, _ids, desc_ = analyse_decorator(_resolve_decorator(A, u, raw))
+            chk.ok(R_DECO, path, '@' + key, 'defined in the analysed packages, classified from its definition as %s (%s): '
+                   'keeps no per-call state and gives no decimal context - judged by %s' % (kind_, desc_, R_DEC), raw.lineno)
         else:
-            raise AnalysisError('%s:%d unknown decorator @%s on %s: it may keep state between calls - add it to the reviewed '
-                                'list in sa/props/c02.py after reading it' % (u.mod.rel if u else '?', raw.lineno, key, where))
+            dfn = _resolve_decorator(A, u, raw) if u is not None else None
+            if dfn is not None:
+                raise AnalysisError('%s:%d decorator @%s on %s: its definition (line %d of its module) has a shape the '
+                                    'checker does not classify as scoping / import-time / plain wrapper / identity - it may '
+                                    'keep state between calls' % (u.mod.rel, raw.lineno, key, where, dfn.lineno))
+            raise AnalysisError('%s:%d unknown decorator @%s on %s: it is defined outside the analysed packages and may keep '
+                                'state between calls - add it to the reviewed list in sa/props/c02.py after reading it'
+                                % (u.mod.rel if u else '?', raw.lineno, key, where))
 
 
 # =====================================================================================================
